@@ -16,7 +16,6 @@ import (
 	"github.com/ethereum/go-ethereum/core/vm"
 	evmtypes "github.com/tharsis/ethermint/x/evm/types"
 
-	"github.com/teleport-network/teleport/x/xibc/core/host"
 	"github.com/teleport-network/teleport/x/xibc/exported"
 	rt "github.com/teleport-network/teleport/zzverifrt"
 )
@@ -211,20 +210,3 @@ func (e *stubEVM) EstimateGas(context.Context, *evmtypes.EthCallRequest) (*evmty
 
 func evmEffectKey(n uint64) []byte { return append([]byte("effect/"), sdk.Uint64ToBigEndian(n)...) }
 
-// ---- assembling a keeper over an arbitrary store ----
-
-type world struct {
-	ctx sdk.Context
-	key sdk.StoreKey
-	ck  *stubClientKeeper
-	evm *stubEVM
-	k   Keeper
-}
-
-func newWorld(nClients int) *world {
-	w := &world{ctx: rt.Ctx(), key: rt.StoreKey(host.StoreKey)}
-	w.ck = newStubClientKeeper(w.key, nClients)
-	w.evm = &stubEVM{key: rt.StoreKey("evm")}
-	w.k = NewKeeper(rt.Codec(), w.key, w.ck, stubAccountKeeper{}, w.evm)
-	return w
-}
